@@ -78,11 +78,21 @@ def run(name, budget):
     try:
         shutil.copytree('/repo/billiard', os.path.join(d, 'billiard'),
                         ignore=shutil.ignore_patterns('__pycache__'))
-        p = os.path.join(d, rel)
-        s = open(p).read()
-        if old not in s:
-            return name, prop, 'NOT-APPLICABLE (pattern not found)'
-        open(p, 'w').write(s.replace(old, new, 1))
+        if rel == 'REVERT':
+            # undo one of our own "fix:" commits (saved diff, reverse-applied): the defect must come back
+            for commit in old:
+                diff = os.path.join(VERIF, 'selftest', 'reverts', commit + '.diff')
+                r = subprocess.run(['patch', '-R', '-p1', '-s', '-d', d, '-i', diff], capture_output=True, text=True)
+                if r.returncode != 0:
+                    return name, prop, 'NOT-APPLICABLE (reverse patch %s does not apply: %s)' % (
+                        commit, r.stdout.strip()[:120])
+            p = os.path.join(d, 'billiard', 'pool.py')
+        else:
+            p = os.path.join(d, rel)
+            s = open(p).read()
+            if old not in s:
+                return name, prop, 'NOT-APPLICABLE (pattern not found)'
+            open(p, 'w').write(s.replace(old, new, 1))
         subprocess.run([sys.executable, '-m', 'py_compile', p], check=True)
         env = dict(os.environ, BILLIARD_SRC=d)
         out = subprocess.run([sys.executable, os.path.join(VERIF, 'bin', 'check.py'), prop, '--tier', 'quick',
